@@ -238,7 +238,7 @@ def r3_tear_down(ctx, rep, R='C01.R3'):
               'no except NotImplementedError clause receives exceptions of layer.tearDown()',
               key='nie-handler', func=fi.qualname, where=ctx.where(fi, call))
     if nie:
-        opt = 'optional'
+        opt = optional_param(ctx) or 'optional'
         for flag, expect in ((True, False), (False, True)):
             gb = ctx.cfg(fi, layer_hook_oracle(ctx, ('tearDown',)),
                          branch_oracle=lambda t, flag=flag: _opt_value(t, opt, flag))
@@ -270,6 +270,19 @@ def r3_tear_down(ctx, rep, R='C01.R3'):
                   'the NotImplementedError handler records a layer failure',
                   key='nie-not-error', func=fi.qualname, where=ctx.where(fi, nie[0].ast))
     rep.floor(R, len(T) + len(dels) + len(nie), 3, 'tearDown/del/handler sites')
+
+
+def optional_param(ctx):
+    """the boolean parameter of tear_down_unneeded whose truth value guards ``raise CanNotTearDown``"""
+    from sa.variance import path_literals
+    fi = ctx.model.func('runner.tear_down_unneeded')
+    ps = params(fi)
+    for n in ast.walk(fi.node):
+        if isinstance(n, ast.Raise) and n.exc is not None and 'CanNotTearDown' in norm(n.exc):
+            for e, pos in path_literals(n, fi.node):
+                if isinstance(e, ast.Name) and e.id in ps:
+                    return e.id
+    return None
 
 
 def _opt_value(test, name, value):
@@ -502,33 +515,52 @@ def r5_after_cannot_teardown(ctx, rep, R='C01.R5'):
 
 def r6_final_teardown(ctx, rep, R='C01.R6'):
     rep.rule(R, 'Runner.run_tests: every path to the exit tears down the left-over layers with '
-             'needed=<empty>, optional=True (only an empty map may skip it)')
+             'needed=<empty> (only an empty map may skip it), and for the arguments of that call '
+             'CanNotTearDown cannot leave tear_down_unneeded, i.e. the tear-down loop visits every '
+             'left-over layer')
     fi = ctx.model.func('runner.Runner.run_tests')
     g = _run_tests_cfg(ctx, fi)
     rl = [c for c in own_calls(fi.node) if call_name(c) == 'run_layer']
     m = dotted(arg(rl[0], 4, 'setup_layers')) if rl else None
     finals = []
+    fcalls = []
     for n in g.nodes:
         for c in node_calls(g, n.id):
             if call_name(c) == 'tear_down_unneeded':
                 needed = arg(c, 1, 'needed')
-                opt = arg(c, 4, 'optional')
                 if needed is not None and is_empty_collection(needed) and \
-                        isinstance(opt, ast.Constant) and opt.value is True and \
                         dotted(arg(c, 2, 'setup_layers')) == m:
                     finals.append(n.id)
+                    fcalls.append(c)
     rep.check(bool(finals) and m is not None, R,
-              'final tear_down_unneeded(options, <empty>, setup_layers, errors, optional=True)',
-              'no final tear-down call with empty needed set, the run_layer map and optional=True',
+              'final tear_down_unneeded(options, <empty>, setup_layers, errors, ...)',
+              'no final tear-down call with an empty needed set on the run_layer map',
               key='final-teardown:site', func=fi.qualname, where=ctx.where(fi, fi.node))
     if not finals:
         return
+    # the loop of that call cannot be cut short by CanNotTearDown
+    from . import c04
+    from sa.escape import classes_of
+    e = c04.escape_for(ctx, False, False)
+    td = ctx.model.func('runner.tear_down_unneeded')
+    for c in fcalls:
+        v = e._spec_value(c, td) if td.qualname in e.spec else None
+        toks = set()
+        for val in ((True, False) if v is None else (bool(v),)):
+            toks |= set(e.tokens(td.qualname, val)) if td.qualname in e.spec else set(e.tokens(td.qualname))
+        esc = classes_of(toks, ctx.hier) - {'MemoryError'}
+        rep.check(not esc, R, 'the final tear-down cannot be cut short (escaping: %s)'
+                  % sorted(classes_of(toks, ctx.hier)),
+                  '%s can leave the final tear_down_unneeded call: the layers after the first one '
+                  'whose tearDown raises NotImplementedError (its bases) never get tearDown'
+                  % sorted(esc), key='final-teardown:complete', func=fi.qualname,
+                  where=ctx.where(fi, c))
 
     def edge_ok(s, d, k):
         n = g.node(s)
         if n.kind == 'test':
-            pos, e = truth_test(n.ast)
-            if is_name(e, m) and k == ('false' if pos else 'true'):
+            pos, e_ = truth_test(n.ast)
+            if is_name(e_, m) and k == ('false' if pos else 'true'):
                 return False
         return True
     r = g.reach([g.entry], avoid=set(finals), include_start=True, edge_ok=edge_ok)
